@@ -192,6 +192,8 @@ def oracle(c, o):
     if k == "adaptive":
         fb, mn, mxm = F(c["fallback"]), F(c["minm"]), F(c["maxm"])
         tol = Fraction(ulp_slack(fb * mxm)) * 4
+        if fb > 0 and fb.numerator & (fb.numerator - 1) == 0 and fb.denominator & (fb.denominator - 1) == 0:
+            tol = 0      # fallback value a power of two: value / fallback is the factor itself
         if not (fb * mn - tol <= v <= fb * mxm + tol):
             return f"adaptive returned {float(v)} outside fallback*[{float(mn)}, {float(mxm)}] (fallback {float(fb)})"
         return None
@@ -213,8 +215,23 @@ def gen_wild(rng):
     """arbitrary floats incl. subnormals and huge attempts: envelope only"""
     def anyf(lo=-30, hi=30):
         return Fraction(rng.random() * 2.0 ** rng.randint(lo, hi))
-    k = rng.choice(["decor", "equal", "token", "retry_after"])
+    k = rng.choice(["decor", "equal", "token", "retry_after", "adaptive"])
     r = Fraction(rng.random())
+    if k == "adaptive":
+        # multipliers that are not dyadic (1.2, 3.4, ...): the interpolation min + frac * (max - min) rounds, and for an all-failure
+        # window may land an ulp above max_multiplier unless it is clamped.  The fallback answers a power of two, so the
+        # returned value IS the factor (up to an exact scaling) and the bounds are checked without tolerance.
+        while True:
+            c = gen_exact(rng)
+            if c["kind"] == "adaptive" and len(c["hist"]) < 100:
+                break
+        mn, mx = rng.choice([(1.2, 3.4), (1.2, 3.6), (1.4, 5.7), (1.7, 3.9), (1.9, 6.2), (1.1, 1.1), (1.0, 5.0)]) if rng.random() < 0.6 \
+            else (lambda a: (a, a + rng.random() * 6))(1.0 + rng.random() * 2)
+        c.update(minm=fr(Fraction(mn)), maxm=fr(Fraction(mx)), fallback=fr(Fraction(rng.choice([1, 1, 2, 1024]), rng.choice([1, 1, 4]))),
+                 ts=fr(Fraction(rng.choice([0.5, 0.25, 0.1, 0.3, 0.9, rng.random()]))))
+        if rng.random() < 0.5:
+            c["hist"] = [[t, False] for t, _ in c["hist"]]      # nothing but failures in the window
+        return c
     if k == "decor":
         base = anyf()
         return {"kind": k, "base": fr(base), "max": fr(base * Fraction(1 + rng.random() * 100)),
